@@ -108,6 +108,8 @@ partial def synth (c : ECtx) : Sx → Option ITy
   | .list [.atom "value", e] =>
     (match e with
      | .list [.atom "rawvalue", _] => c.argRawUint.map ITy.unsignedOf
+     | .list [.atom "extract", _, .atom n, _, _] => n.toNat?.map ITy.unsignedOf
+     | .list [.atom "uintnew", .atom n, _] => n.toNat?.map ITy.unsignedOf
      | _ => c.argUint.map ITy.unsignedOf)
   | .list [.atom "rawvalue", _] => c.argRawTy
   | sx =>
